@@ -156,7 +156,8 @@ pub fn c07_parts(quick: bool) -> (Vec<EwSpec>, Vec<Scenario>) {
         let mut env = EwEnv::basic(0, if sname == "established" { 90 } else { 40 });
         env.fates = DF_NONE; env.deltas = &[100]; env.fair_delta = 500; env.stop_when_done = false;
         if sname != "established" { env.lose_syn = 2; }
-        custom.push(forger_scenario(&format!("C07.forged.{}", sname), cfg, script, env, if quick { 30 } else { 60 }));
+        let window = (if quick { 30 } else { 60 }).min(env.max_rounds - 2);
+        custom.push(forger_scenario(&format!("C07.forged.{}", sname), cfg, script, env, window));
     }
     // raw version mismatch
     {
@@ -223,7 +224,7 @@ fn forger_scenario(tag: &str, cfg: EwCfg, script: Vec<EwOp>, env: EwEnv, window:
         // A SYN from the client's address while the server has no entry for that address is simply a
         // new handshake attempt from there (it yields a pending entry, never a Connect), not a forgery
         // against an existing handshake or connection: such injections are not compared.
-        if r > 0 && alpha[k].0.starts_with("spoofed SYN,") && (r < 2 || !base_tr.obs[r - 2].s_known[0] || !base_tr.obs[(r - 1).min(base_tr.obs.len() - 1)].s_known[0]) {
+        if r > 0 && alpha[k].0.starts_with("spoofed SYN,") && (r < 2 || !base_tr.obs[(r - 2).min(base_tr.obs.len() - 1)].s_known[0] || !base_tr.obs[(r - 1).min(base_tr.obs.len() - 1)].s_known[0]) {
             return ExecResult { outcome: 7, ..Default::default() };
         }
         let mut c1 = Chooser::new(vec![], vec![]);
